@@ -140,7 +140,7 @@ pub fn generate(r: &mut Rng, tier: Tier) -> Scenario {
         if r.chance(1, 3) {
             plan.push(format!("read:*:eintr:{}", 2 + r.usize(3)));
         }
-        Some(T2Spec { modes: vec![], plan, profile: "dev".into(), force_color: false, raw_base_name: None })
+        Some(T2Spec { modes: vec![], plan, profile: "dev".into(), force_color: false, raw_base_name: None, stdout_fault: None })
     } else {
         None
     };
@@ -713,7 +713,7 @@ fn check_t2(scn: &Scenario, stats: &mut Stats) -> Vec<Violation> {
     }
     let run = |flags: &[&str], plan: &[String], sbx: &t2::Sandbox, base: &str, e: u64| {
         let f: Vec<String> = flags.iter().map(|s| (*s).to_string()).collect();
-        t2::run_rva(&t2::RvaCall { sandbox: sbx, base, flags: &f, entropy: e, plan, profile: &spec.profile, force_color: false, cpu_seconds: 10, raw_base: None })
+        t2::run_rva(&t2::RvaCall { sandbox: sbx, base, flags: &f, entropy: e, plan, profile: &spec.profile, force_color: false, cpu_seconds: 10, raw_base: None, stdout_fault: None })
     };
     let Ok(sj) = run(&["--json", "--all-files"], &spec.plan, &sb, &scn.world.base, e0) else {
         stats.inc("harness:spawn_failed");
